@@ -269,7 +269,7 @@ Section P.
       destruct (ec_sign sk data) as [r s] eqn:Es.
       destruct (encode_all [FMpint r; FMpint s]) as [inner|] eqn:Ei; [|discriminate].
       cbn [bind] in Hsign.
-      assert (Hib : bytes_ok inner = true) by (apply (encode_all_bytes_ok _ _ eq_refl Ei)).
+      assert (Hib : bytes_ok inner = true) by (apply (encode_all_bytes_ok [FMpint r; FMpint s] inner eq_refl Ei)).
       assert (Hid : bytes_ok (ecdsa_ident c1) = true /\ ascii (ecdsa_ident c1) = true).
       { unfold ecdsa_ident, curve_name. destruct (c1 =? 0); [vm_compute; auto|].
         destruct (c1 =? 1); vm_compute; auto. }
